@@ -69,13 +69,23 @@ type c05User struct{ Name, Login, Password string }
 var c05Users = []c05User{
 	{"anonymous", "", ""},
 	{"bad-password", "bob", "wrong"},
+	// dave is granted everything by the policy file but has no account: the policy never authenticates
+	{"no-account", "dave", "pw-dave"},
+	{"no-account-empty-password", "dave", ""},
+	{"known-user-empty-password", "bob", ""},
 	{"alice", "alice", "pw-alice"},
 	{"bob", "bob", "pw-bob"},
 	{"carol", "carol", "pw-carol"},
 	{"root", "root", "pw-root"},
 }
 
-func (u c05User) valid() bool { return u.Name != "anonymous" && u.Name != "bad-password" }
+func (u c05User) valid() bool {
+	switch u.Name {
+	case "anonymous", "bad-password", "no-account", "no-account-empty-password", "known-user-empty-password":
+		return false
+	}
+	return true
+}
 
 // opClass is the operation class of a method by the documented naming rule;
 // it is deliberately NOT read from accounts.MethodMap.
@@ -226,6 +236,7 @@ func c05Accounts(dir string, pol int) *accounts.Config {
 	os.WriteFile(mf, []byte(c05Model), 0o644)
 	var sb strings.Builder
 	sb.WriteString("p, alice, *, *\n")
+	sb.WriteString("p, dave, *, *\n")
 	for _, r := range c05Policies[pol] {
 		fmt.Fprintf(&sb, "p, %s, %s, %s\n", r.Sub, r.Obj, r.Act)
 	}
@@ -603,7 +614,7 @@ func c05State(ls *gq.LiveServer) string {
 func init() {
 	fw.Register(&fw.Property{
 		ID:   "C05",
-		Rule: "methods are enumerated by reflection from the four gripql service descriptors (34 methods). Layer 1 (spy): a real grpc.Server on loopback with exactly the accounts interceptor chain (Basic auth + Casbin policy files generated per case) and the generated Unimplemented services as spies - the reply code Unimplemented can only be produced if the chain let the call through - for every method x 6 users (no credentials, bad password, full rights, limited, no rules, root) x 2 graphs x 12 policies (per operation class, wildcard object, wildcard action); oracle = my own evaluator of the three-field policy with the operation class derived from the documented naming rule, not from accounts.MethodMap; denials must carry Unauthenticated/PermissionDenied. BulkAdd: every graph pattern of length <= 3, a spy handler must receive exactly the permitted elements in order. No accounts: every method must reach its handler. Layer 2 (live): a real GripServer on Badger with the same accounts, every method over gRPC and over the HTTP gateway (routes read from the google.api.http options); a denied call must be refused, return no element data and leave the complete state of all graphs unchanged. Every case is non-trivial.",
+		Rule: "methods are enumerated by reflection from the four gripql service descriptors (34 methods). Layer 1 (spy): a real grpc.Server on loopback with exactly the accounts interceptor chain (Basic auth + Casbin policy files generated per case) and the generated Unimplemented services as spies - the reply code Unimplemented can only be produced if the chain let the call through - for every method x 9 users (no credentials, bad password, a name the policy grants everything but that has no account - with a password and with an empty one -, a known user with an empty password, full rights, limited, no rules, root) x 2 graphs x 12 policies (per operation class, wildcard object, wildcard action); oracle = my own evaluator of the three-field policy with the operation class derived from the documented naming rule, not from accounts.MethodMap; denials must carry Unauthenticated/PermissionDenied. BulkAdd: every graph pattern of length <= 3, a spy handler must receive exactly the permitted elements in order. No accounts: every method must reach its handler. Layer 2 (live): a real GripServer on Badger with the same accounts, every method over gRPC and over the HTTP gateway (routes read from the google.api.http options); a denied call must be refused, return no element data and leave the complete state of all graphs unchanged. Every case is non-trivial.",
 		Assumptions: []string{
 			"a method that has no operation class in the server's table must fail closed when accounts are configured and stay callable when none are",
 			"on the live server 'refused' is read from the reply: Unauthenticated / PermissionDenied / 'Unknown method' (gRPC), 401/403 or those words in the body (HTTP)",
